@@ -2,7 +2,7 @@
 # regenerates harness/src/props/mod.rs from the c??.rs files present
 import glob, os
 ids = sorted(os.path.basename(f)[:-3] for f in glob.glob('/verif/harness/src/props/c[0-9][0-9].rs'))
-s = 'use crate::engine::Engine;\n' + ''.join(f'pub mod {i};\n' for i in ids)
+s = 'use crate::engine::Engine;\npub mod readfaults;\n' + ''.join(f'pub mod {i};\n' for i in ids)
 s += '\npub fn run(id: &str, eng: &mut Engine) -> bool {\n    match id {\n' + ''.join(f'        "{i.upper()}" => {i}::run(eng),\n' for i in ids) + '        _ => return false,\n    }\n    true\n}\n'
 open('/verif/harness/src/props/mod.rs', 'w').write(s)
 print(ids)
